@@ -192,8 +192,14 @@ inductive Route where
   | unmodelled
   deriving Repr, DecidableEq
 
+/-- `parser.StmtDDL`, `parser.StmtLoad` (rejected for read-only users since the C21 repair of
+    `isSQLNotAllowedByUser`). -/
+def stmtDDL : Nat := 6
+def stmtLoad : Nat := 31
+
 def isWriteKind (stmtType : Nat) : Bool :=
-  stmtType == stmtInsert || stmtType == stmtUpdate || stmtType == stmtDelete || stmtType == stmtReplace
+  stmtType == stmtInsert || stmtType == stmtUpdate || stmtType == stmtDelete || stmtType == stmtReplace ||
+  stmtType == stmtDDL || stmtType == stmtLoad
 
 def kwDatabases : Str := "databases".toList
 
